@@ -137,25 +137,67 @@ def check(cx):
         if fa is None:
             cx.bad(r4, "abort-all-spares-nobody", "", "TransactionCoordinator::abort_all not found")
         else:
-            st_blocks = [bi for bi, b in enumerate(fa.blocks) for st in b["stmts"]
-                         if any(isinstance(pe, str) and pe.startswith(".state:") for pe in st["dst"][1:])]
-            extra = []
-            for sb in st_blocks:
-                for bi, b in enumerate(fa.blocks):
-                    t = b["term"]
-                    if t["t"] != "switch" or not fa.dominates(bi, sb) or bi == sb:
+            # the store may sit in the loop body or in a closure of an iterator chain: look at the whole family. A bool that
+            # decides the store (a branch that dominates it, or the result of a filter closure of the chain) must come from
+            # a comparison of the state and from nothing else; adaptors that drop elements by position are not allowed
+            fam = [fa] + [p.fn(c) for c in p.closure_children.get(fa.id, ())]
+
+            def active_pred(g_):
+                """`matches!(self.state, TransactionState::Active)`: one switch on the state's discriminant, true on Active only"""
+                sw = list(core.enum_switches(p, g_))
+                if len(sw) != 1 or any(b["term"]["t"] == "switch" for i, b in enumerate(g_.blocks) if i != sw[0][0]) or list(g_.calls()):
+                    return False
+                bi, adt, m, other, src = sw[0]
+                if not adt.endswith("TransactionState") or set(m) != {"Active"}:
+                    return False
+
+                def sets(bb, v):
+                    return any(st["dst"] == [0] and st["rv"].get("r") == "use" and (core.op_const(st["rv"]["o"][0]) or {}).get("v") == v
+                               for st in g_.blocks[bb]["stmts"])
+                return sets(m["Active"], 1) and sets(other, 0)
+
+            def state_test(f, l, depth=0):
+                nc = f.nearest_calls(l)
+                if not nc or depth > 3:
+                    return False
+                for kind, x in nc:
+                    if kind != "call":
+                        return False
+                    if x.rsplit("::", 1)[-1] in ("eq", "ne"):
+                        cs = [c for c in f.calls() if (c.term["fn"].get("res") or c.callee) == x or c.callee == x or c.defn == x]
+                        if cs and all(any("TransactionState" in a for a in c.gargs) for c in cs):
+                            continue
+                        return False
+                    if x.rsplit("::", 1)[-1] in ("matches", "discriminant"):
                         continue
-                    # a switch that dominates the store and has an arm that does not lead to it decides the store
-                    arms = [x[1] for x in t["targets"]] + [t["otherwise"]]
-                    if all(sb in fa.reachable(a, blocked={bi}) for a in arms):
+                    g_ = p.raw_fns.get(x)
+                    if g_ is not None and g_.locals and g_.locals[0] == "bool" and (active_pred(g_) or state_test(p.fn(x), 0, depth + 1)):
                         continue
-                    l = op_local(t["o"])
-                    if t.get("ty") != "bool":
-                        continue          # Option discriminant of Iterator::next: the iteration itself
-                    prod = [c for c in fa.calls() if c.dst and c.dst[0] == l]
-                    okc = [c for c in prod if c.defn in ("std::cmp::PartialEq::eq", "std::cmp::PartialEq::ne") and any("TransactionState" in a for a in c.gargs)]
-                    if not okc:
-                        extra.append("bb%d" % bi)
+                    return False
+                return True
+            st_blocks, extra = [], []
+            for f in fam:
+                sbs = [bi for bi, b in enumerate(f.blocks) for st in b["stmts"]
+                       if any(isinstance(pe, str) and pe.startswith(".state:") for pe in st["dst"][1:])]
+                st_blocks += sbs
+                for sb in sbs:
+                    for bi, b in enumerate(f.blocks):
+                        t = b["term"]
+                        if t["t"] != "switch" or not f.dominates(bi, sb) or bi == sb:
+                            continue
+                        # a switch that dominates the store and has an arm that does not lead to it decides the store
+                        arms = [x[1] for x in t["targets"]] + [t["otherwise"]]
+                        if all(sb in f.reachable(a, blocked={bi}) for a in arms):
+                            continue
+                        if t.get("ty") != "bool":
+                            continue          # Option discriminant of Iterator::next: the iteration itself
+                        if not state_test(f, op_local(t["o"])):
+                            extra.append("%s bb%d" % (f.name, bi))
+                if f is not fa and f.locals and f.locals[0] == "bool" and not state_test(f, 0):
+                    extra.append("filter %s" % f.id.rsplit("::", 1)[-1])
+                for c in f.calls():
+                    if c.callee.rsplit("::", 1)[-1] in ("skip", "take", "step_by", "skip_while", "take_while", "nth", "last", "find", "position"):
+                        extra.append(c.callee.rsplit("::", 1)[-1])
             cx.verdict(bool(st_blocks) and not extra, r4, "abort-all-spares-nobody", fa.where(),
                        "the Aborted store depends on `state == Active` only",
                        "abort_all skips some active transactions (extra condition at %s): VACUUM then treats the pending delete "
